@@ -22,6 +22,9 @@ type c20Case struct {
 	HasPort   bool   `json:"has_port"`
 	Port      int    `json:"port"`
 	Path      string `json:"path,omitempty"` // ws only
+	// WSRest (ws / wss only): when set, everything after "ws:" / "wss:" verbatim - host shapes a URL parser may refuse
+	// (bare or zoned IPv6, odd ports, escapes, no slashes): the scheme alone selects the transport
+	WSRest string `json:"ws_rest,omitempty"`
 }
 
 func genLabel(t *rapid.T) string {
@@ -84,6 +87,18 @@ func genC20(t *rapid.T) c20Case {
 		}
 		if c.Kind != "dns" {
 			c.Path = rapid.SampledFrom([]string{"", "/", "/xmpp-websocket", "/ws/"}).Draw(t, "path")
+			switch rapid.IntRange(0, 5).Draw(t, "wsHost") {
+			case 0: // an IPv6 literal, bracketed or not, possibly zoned
+				v6 := genIPv6(t)
+				if rapid.Bool().Draw(t, "wsBracketed") {
+					v6 = "[" + v6 + "]"
+				}
+				c.WSRest = "//" + v6 + rapid.SampledFrom([]string{"", ":5280", ":443"}).Draw(t, "wsPort") + c.Path
+			case 1: // IPv4
+				c.WSRest = fmt.Sprintf("//%d.%d.%d.%d", rapid.IntRange(0, 255).Draw(t, "o"), rapid.IntRange(0, 255).Draw(t, "o"), rapid.IntRange(0, 255).Draw(t, "o"), rapid.IntRange(0, 255).Draw(t, "o")) + c.Path
+			case 2: // things a strict URL parser does not like
+				c.WSRest = rapid.SampledFrom([]string{"//host:port/ws", "//host:99999", "//ho st/ws", "//host/%zz", "//%41host", "//user:pw@host:5280/ws", "//host/ws?x=1#f", "//", "", "host", "/host/ws", "//host:/ws", "//[::1/ws", "//::1]/ws", "///ws"}).Draw(t, "wsOdd")
+			}
 		}
 	case "ipv4":
 		c.Host = fmt.Sprintf("%d.%d.%d.%d", rapid.IntRange(0, 255).Draw(t, "o"), rapid.IntRange(0, 255).Draw(t, "o"), rapid.IntRange(0, 255).Draw(t, "o"), rapid.IntRange(0, 255).Draw(t, "o"))
@@ -113,6 +128,9 @@ func (c c20Case) address() string {
 	}
 	switch c.Kind {
 	case "ws", "wss":
+		if c.WSRest != "" || c.Host == "" {
+			return c.Kind + ":" + c.WSRest
+		}
 		return c.Kind + "://" + h + c.Path
 	}
 	return h
@@ -141,6 +159,10 @@ func runC20(c c20Case) vh.Result {
 	ct := xmpp.NewClientTransport(xmpp.TransportConfiguration{Address: addr, Domain: "example.org"})
 	kt, kerr := xmpp.NewComponentTransport(xmpp.TransportConfiguration{Address: addr, Domain: "example.org"})
 	if c.Kind == "ws" || c.Kind == "wss" {
+		if c.WSRest != "" {
+			res.Label("ws-unusual-host")
+			res.NonTrivial = true
+		}
 		w, ok := ct.(*xmpp.WebsocketTransport)
 		if !ok {
 			res.Fail("ws-not-selected", "NewClientTransport(%q) returned %T, expected the WebSocket transport", addr, ct)
@@ -186,7 +208,7 @@ func runC20(c c20Case) vh.Result {
 
 var c20 = vh.Define(&vh.Def[c20Case]{
 	Property: "C20", Name: "address",
-	Rule: "hosts = DNS names (1-4 labels, digits, hyphens, optional trailing dot), IPv4 literals, IPv6 literals in 8 shapes (::, ::1, full, compressed middle/leading/trailing, IPv4-mapped, zoned; either case) bracketed or bare, x port absent / present (0-65535, weighted to well-known values), and ws:// / wss:// URLs with optional port and path; bare IPv6 followed by :port is excluded and counted; oracle = net.SplitHostPort of the address the returned transport dials, host unchanged, port kept or 5222, transport type per scheme, components refuse ws/wss with ErrTransportProtocolNotSupported; non-trivial = IPv6 host or explicit port",
+	Rule: "hosts = DNS names (1-4 labels, digits, hyphens, optional trailing dot), IPv4 literals, IPv6 literals in 8 shapes (::, ::1, full, compressed middle/leading/trailing, IPv4-mapped, zoned; either case) bracketed or bare, x port absent / present (0-65535, weighted to well-known values), and ws:// / wss:// URLs with optional port and path, in half of them with a host part other than a DNS name (IPv4, IPv6 bracketed / bare / zoned, and 15 shapes a strict URL parser refuses: the scheme alone selects the transport); bare IPv6 followed by :port is excluded and counted; oracle = net.SplitHostPort of the address the returned transport dials, host unchanged, port kept or 5222, transport type per scheme, components refuse ws/wss with ErrTransportProtocolNotSupported; non-trivial = IPv6 host or explicit port",
 	Quick: 100000, Thorough: 4000000,
 	Gen: genC20, Run: runC20,
 })
